@@ -195,7 +195,7 @@ class SemanticPointer(Fixed):
     def copy(self):
         """Return another semantic pointer with the same data."""
         return SemanticPointer(
-            data=self.v, vocab=self.vocab, algebra=self.algebra, name=self.name
+            data=self.v, vocab=self.vocab, algebra=self.algebra, name=self._expr_tree
         )
 
     def length(self):
@@ -448,7 +448,7 @@ class SemanticPointer(Fixed):
             self.v,
             vocab=vocab,
             algebra=self.algebra if vocab is None else None,
-            name=self.name,
+            name=self._expr_tree,
         )
 
     def translate(self, vocab, populate=None, keys=None, solver=None):
@@ -479,7 +479,7 @@ class SemanticPointer(Fixed):
         """
         tr = self.vocab.transform_to(vocab, populate=populate, keys=keys, solver=solver)
         return SemanticPointer(
-            np.dot(tr, self.evaluate().v), vocab=vocab, name=self.name
+            np.dot(tr, self.evaluate().v), vocab=vocab, name=self._expr_tree
         )
 
     def distance(self, other):
